@@ -19,8 +19,8 @@ static const char *pcodes[] = {
 };
 #define NPC ((int) (sizeof(pcodes) / sizeof(pcodes[0])))
 
-static const char *reps[] = {"", "X", "\\0", "\\1", "\\2", "[\\1\\2]", "\\\\", "\\/", "\\x", "\xc3\xa9", "<\\0\\0>", "\\9"};
-#define NREP 12
+static const char *reps[] = {"", "X", "\\0", "\\1", "\\2", "[\\1\\2]", "\\\\", "\\/", "\\x", "\xc3\xa9", "<\\0\\0>", "\\9", "\\n", "a\\tb"};
+#define NREP 14
 static const char *lalpha[] = {"a", "b", " ", "\xc3\xa9", "A"};
 #define NLA 5
 
